@@ -58,22 +58,32 @@ impl AsyncConnection {
         }
         let resp = Response::new_ok(req.id.clone(), ());
         let _ = self.connection.sender.send(resp.into());
-        match tokio::time::timeout(std::time::Duration::from_secs(30), self.receiver.recv()).await {
-            Ok(Some(Message::Notification(n))) if n.method == "exit" => (),
-            Ok(Some(msg)) => {
-                return Err(Box::new(ExitError(format!(
-                    "unexpected message during shutdown: {msg:?}"
-                ))));
-            }
-            Ok(None) => {
-                return Err(Box::new(ExitError(
-                    "channel closed while waiting for exit notification".to_owned(),
-                )));
-            }
-            Err(_) => {
-                return Err(Box::new(ExitError(
-                    "timed out waiting for exit notification".to_owned(),
-                )));
+        loop {
+            match tokio::time::timeout(std::time::Duration::from_secs(30), self.receiver.recv())
+                .await
+            {
+                Ok(Some(Message::Notification(n))) if n.method == "exit" => break,
+                Ok(Some(Message::Request(req))) => {
+                    // LSP: a request received after `shutdown` is answered with InvalidRequest
+                    let resp = Response::new_err(
+                        req.id,
+                        lsp_server::ErrorCode::InvalidRequest as i32,
+                        "server is shutting down".to_owned(),
+                    );
+                    let _ = self.connection.sender.send(resp.into());
+                }
+                // other notifications and responses are ignored while waiting for `exit`
+                Ok(Some(_)) => {}
+                Ok(None) => {
+                    return Err(Box::new(ExitError(
+                        "channel closed while waiting for exit notification".to_owned(),
+                    )));
+                }
+                Err(_) => {
+                    return Err(Box::new(ExitError(
+                        "timed out waiting for exit notification".to_owned(),
+                    )));
+                }
             }
         }
         Ok(true)
